@@ -436,12 +436,36 @@ def replay(rec, chk):
     i = rec["input"]
     if i["stack"][0].startswith("write_string"):
         raise core.MachineryError("re-run bin/check C07 for write_string events")
-    lib = libs[i["library"]]()
-    ev = None
-    for name in i["stack"]:
-        ev, out, extra = apply_event(bib, lib, name, table[name], 0)
-        if out is None:
+    names = [n for n in i["stack"] if n != "(whole stack)"]
+    whole = len(names) != len(i["stack"])
+    worst = None
+    # a recorded stack may have used one object per position or one object for equal rows: both are replayed
+    for same_object in (False, True):
+        cache = {}
+
+        def factory(name):
+            if not same_object:
+                return table[name]
+
+            def get():
+                if name not in cache:
+                    cache[name] = table[name]()
+                return cache[name]
+            return get
+        lib = libs[i["library"]]()
+        lib0, ids0, proj0 = lib, mutable_ids(lib, bib), proj(lib, bib)
+        ev = None
+        for name in names:
+            ev, out, extra = apply_event(bib, lib, name, factory(name), 0)
+            if out is None:
+                break
+            lib = out
+        res = {k: ev[k] for k in ("raised", "changed", "shared")}
+        if whole and out is not None:
+            res = {"raised": False, "changed": proj(lib0, bib) != proj0, "shared": len(set(ids0) & set(mutable_ids(lib, bib)))}
+        ok = not res["changed"] and res["shared"] == 0 and (not res["raised"] or rec["expected"].get("raised"))
+        if worst is None or not ok:
+            worst = (res, ok)
+        if not ok:
             break
-        lib = out
-    ok = not ev["changed"] and ev["shared"] == 0 and (not ev["raised"] or rec["expected"].get("raised"))
-    return {k: ev[k] for k in ("raised", "changed", "shared")}, rec["expected"], ok
+    return worst[0], rec["expected"], worst[1]
